@@ -143,6 +143,9 @@
 //! [casting]: define_pooled_dyn_cast
 //! [`plurality`]: https://crates.io/crates/plurality
 
+#[cfg(folo_verif)]
+#[doc(hidden)]
+pub mod __verif;
 mod blind;
 mod builders;
 mod cast;
